@@ -78,19 +78,34 @@ def beamPos (m : Machine) (t : Nat) : Option Nat :=
     let px := if next then 0 else px
     if line ≥ 240 then none else some (line * 320 + px)
 
-/-- colour of the last write (in time order) whose beam position is ≤ `q`; `init` if none -/
-def colourAt (m : Machine) (init : BitVec 3) (ws : List (Nat × BitVec 3)) (q : Nat) : BitVec 3 :=
-  ws.foldl (fun c w => match beamPos m w.1 with
-    | some p => if p ≤ q then w.2 else c
+/-- colour of the last entry (in time order) whose beam position is ≤ `q`; `init` if none.
+`init = none` (nothing was ever written) leaves the pixel unconstrained. -/
+def colourAtPos (init : Option (BitVec 3)) (pws : List (Option Nat × BitVec 3)) (q : Nat) : Option (BitVec 3) :=
+  pws.foldl (fun c w => match w.1 with
+    | some p => if p ≤ q then some w.2 else c
     | none => c) init
 
+/-- the writes of a frame `(frame clock, colour)` with their beam positions -/
+def positions (m : Machine) (ws : List (Nat × BitVec 3)) : List (Option Nat × BitVec 3) :=
+  ws.map fun w => (beamPos m w.1, w.2)
+
+/-- colour pixel `q` shows according to the property, with zero tolerance -/
+def colourAt (m : Machine) (init : Option (BitVec 3)) (ws : List (Nat × BitVec 3)) (q : Nat) : Option (BitVec 3) :=
+  colourAtPos init (positions m ws) q
+
 /-- colours pixel `q` may show: the exact one at any position within 16 px on the same line -/
-def allowedAt (m : Machine) (init : BitVec 3) (ws : List (Nat × BitVec 3)) (q : Nat) (col : BitVec 3) : Bool :=
+def allowedAtPos (init : Option (BitVec 3)) (pws : List (Option Nat × BitVec 3)) (q : Nat) (col : BitVec 3) : Bool :=
   let line := q / 320
   let x := q % 320
   (List.range 33).any fun d =>
     let x' := x + d
-    16 ≤ x' && x' - 16 < 320 && colourAt m init ws (line * 320 + (x' - 16)) == col
+    16 ≤ x' && x' - 16 < 320 &&
+      (match colourAtPos init pws (line * 320 + (x' - 16)) with
+       | some c => c == col
+       | none => true)
+
+def allowedAt (m : Machine) (init : Option (BitVec 3)) (ws : List (Nat × BitVec 3)) (q : Nat) (col : BitVec 3) : Bool :=
+  allowedAtPos init (positions m ws) q col
 
 /-- colour the host is told (`border_color()`): low three bits of the last ULA write, or the
 border of the last loaded snapshot, whichever came last; `none` before any of them -/
